@@ -14,6 +14,9 @@ use syn::visit::Visit;
 
 #[derive(Deserialize, Default, Clone)]
 struct ClosureSpec {
+    /// optional stable identifier: generated parameter names become `__<id>p<i>` instead of `__c<ordinal>p<i>`
+    #[serde(default)]
+    id: String,
     #[serde(default)]
     params: Vec<String>,
     #[serde(default)]
@@ -452,6 +455,7 @@ struct Rw<'a> {
     tail_loop_break_to_return: bool,
     in_tail_loop_depth: usize,
     iter_chain_idx: usize,
+    closure_pat_seen: HashMap<String, usize>,
 }
 
 impl<'a> Rw<'a> {
@@ -940,9 +944,28 @@ impl<'a, 'ast> Visit<'ast> for Rw<'a> {
     fn visit_expr_closure(&mut self, c: &'ast syn::ExprClosure) {
         let k = self.closure_idx;
         self.closure_idx += 1;
-        let spec = self.spec.closures.get(&k.to_string()).cloned();
+        // R7 lookup: by source-order ordinal, else by the text of the parameter list (`|a, (b, c)|`, n-th occurrence as
+        // `|..|#n`), which survives the insertion or removal of other closures in the function
+        let pkey = {
+            let ps: Vec<String> = c.inputs.iter().map(|p| self.text(p.span()).split_whitespace().collect::<Vec<_>>().join(" ")).collect();
+            format!("|{}|", ps.join(", "))
+        };
+        let occ = {
+            let e = self.closure_pat_seen.entry(pkey.clone()).or_insert(0);
+            let o = *e;
+            *e += 1;
+            o
+        };
+        let spec = self
+            .spec
+            .closures
+            .get(&k.to_string())
+            .or_else(|| self.spec.closures.get(&format!("{}#{}", pkey, occ)))
+            .or_else(|| if occ == 0 { self.spec.closures.get(&pkey) } else { None })
+            .cloned();
         let mut prologue = String::new();
         if let Some(cs) = spec {
+            let k: String = if cs.id.is_empty() { format!("c{}", k) } else { cs.id.clone() };
             if cs.params.len() != c.inputs.len() {
                 self.errors.push(format!(
                     "R7: closure {} of {} has {} params, contract gives {}",
@@ -970,10 +993,10 @@ impl<'a, 'ast> Visit<'ast> for Rw<'a> {
                             head.push_str(&format!("{}: {}", pi.ident, cs.params[i]));
                         }
                         syn::Pat::Wild(_) => {
-                            head.push_str(&format!("__c{}p{}: {}", k, i, cs.params[i]));
+                            head.push_str(&format!("__{}p{}: {}", k, i, cs.params[i]));
                         }
                         syn::Pat::Slice(sl) => {
-                            let name = format!("__c{}p{}", k, i);
+                            let name = format!("__{}p{}", k, i);
                             for (j, el) in sl.elems.iter().enumerate() {
                                 match el {
                                     syn::Pat::Ident(pi) => prologue.push_str(&format!(
@@ -989,7 +1012,7 @@ impl<'a, 'ast> Visit<'ast> for Rw<'a> {
                             head.push_str(&format!("{}: {}", name, cs.params[i]));
                         }
                         syn::Pat::Tuple(_) | syn::Pat::Struct(_) | syn::Pat::TupleStruct(_) => {
-                            let name = format!("__c{}p{}", k, i);
+                            let name = format!("__{}p{}", k, i);
                             prologue.push_str(&format!(
                                 "let {} = {}; ",
                                 self.text(inner.span()),
@@ -999,7 +1022,7 @@ impl<'a, 'ast> Visit<'ast> for Rw<'a> {
                         }
                         syn::Pat::Reference(_) => {
                             // R5: `&&x` (reference patterns are not supported by Verus) -> `let x = **param;`
-                            let name = format!("__c{}p{}", k, i);
+                            let name = format!("__{}p{}", k, i);
                             let mut depth = 0;
                             let mut cur = inner;
                             while let syn::Pat::Reference(r) = cur {
@@ -1268,6 +1291,7 @@ fn extract_fn(
         tail_loop_break_to_return: false,
         in_tail_loop_depth: 0,
         iter_chain_idx: 0,
+        closure_pat_seen: HashMap::new(),
     };
     let (_, wend) = br(whole);
     let (sig_s, sig_e) = br(sig.span());
